@@ -193,6 +193,26 @@ def _swap(obj, attr, value):
     return plant, restore
 
 
+def _swap_item(container, key, value, missing=object()):
+    """plant/restore for one item of a dict"""
+    saved = []
+
+    def plant():
+        saved.append(container.get(key, missing))
+        container[key] = value
+
+    def restore():
+        old = saved.pop()
+        if old is missing:
+            container.pop(key, None)
+        else:
+            container[key] = old
+    return plant, restore
+
+
+UNWRITABLE = frozenset([1, 2])      # no validator looks at it, and neither JSON nor INI can write it
+
+
 def _result(kind, units, trials):
     return {"nontrivial": bool(units), "labels": [kind], "units": units, "unit_evaluations": trials}
 
@@ -210,6 +230,9 @@ def composeinfo_case(desc):
         plants.append(("variant[%s].name" % v.uid, ) + _swap(v, "name", ""))
         plants.append(("variant[%s].type" % v.uid, ) + _swap(v, "type", "bogus"))
         plants.append(("variant[%s].arches" % v.uid, ) + _swap(v, "arches", set()))
+    for v in variants[:3]:
+        arch = sorted(v.arches)[0]
+        plants.append(("variant[%s].paths.os_tree[%s]=unwritable" % (v.uid, arch), ) + _swap_item(v.paths.os_tree, arch, UNWRITABLE))
     u2, t2 = real_invalid_trials("composeinfo", obj, obj.dump, plants)
     return _result("composeinfo", units + u2, trials + t2)
 
@@ -226,6 +249,8 @@ def images_case(desc):
         plants.append(("image[%s].size" % img.path, ) + _swap(img, "size", "12"))
         plants.append(("image[%s].type" % img.path, ) + _swap(img, "type", "floppy"))
         plants.append(("image[%s].checksums" % img.path, ) + _swap(img, "checksums", {}))
+    for img in imgs[:3]:
+        plants.append(("image[%s].checksums[md5]=unwritable" % img.path, ) + _swap_item(img.checksums, "md5", UNWRITABLE))
     u2, t2 = real_invalid_trials("images", obj, obj.dump, plants)
     return _result("images", units + u2, trials + t2)
 
@@ -240,6 +265,12 @@ def _manifest_case(kind, cls, build):
     units, trials = run_trials(kind, obj, obj.dump, change)
     plants = [("compose.type", ) + _swap(obj.compose, "type", "bogus"), ("compose.respin", ) + _swap(obj.compose, "respin", None),
               ("compose.id", ) + _swap(obj.compose, "id", "")]
+    payload = getattr(obj, kind)
+    if isinstance(payload, dict):
+        plants.append(("payload[zzz]=unwritable", ) + _swap_item(payload, "zzz", UNWRITABLE))
+        for variant in sorted(payload)[:1]:
+            if isinstance(payload[variant], dict):
+                plants.append(("payload[%s][zzz]=unwritable" % variant, ) + _swap_item(payload[variant], "zzz", {"x": UNWRITABLE}))
     u2, t2 = real_invalid_trials(kind, obj, obj.dump, plants)
     return _result(kind, units + u2, trials + t2)
 
@@ -297,6 +328,12 @@ def treeinfo_case(case):
     for v in [v for p, v in reachable(obj) if type(v).__name__ == "Variant"][:5]:
         plants.append(("variant[%s].type" % v.uid, ) + _swap(v, "type", "bogus"))
         plants.append(("variant[%s].id" % v.uid, ) + _swap(v, "id", "a-b"))
+    for plat in sorted(obj.images.images)[:2]:
+        table = obj.images.images[plat]
+        plants.append(("images[%s][None]" % plat, ) + _swap_item(table, None, "vmlinuz"))          # non-string image name among string names
+        plants.append(("images[%s][kernel]=unwritable" % plat, ) + _swap_item(table, "kernel", UNWRITABLE))
+    for v in [v for p, v in reachable(obj) if type(v).__name__ == "Variant"][:2]:
+        plants.append(("variant[%s].paths.packages=5" % v.uid, ) + _swap(v.paths, "packages", 5))
     u2, t2 = real_invalid_trials(kind, obj, dump, plants)
     return _result("treeinfo", units + u2, trials + t2)
 
